@@ -214,6 +214,43 @@ pub fn c19_precreate(res: &mut WorkerResult) -> Vec<(String, String)> {
                 }
             }
             st.close();
+            // orphan clean-up must not make the creation-time choice observable either: an unreferenced blob alone in its leaf
+            // directory is removed by each of the three clean-up calls, then the same content (and one with another leaf) is put
+            if !failed && created_pre == reopen_pre {
+                for how in 0..3 {
+                    res.count("cases", 1);
+                    let orphan = crate::keys::content(C_H);
+                    let rel = crate::ondisk::path_of_hash(&crate::util::b3(orphan));
+                    let p = dir.join("cas").join(&rel);
+                    let _ = std::fs::create_dir_all(p.parent().unwrap());
+                    std::fs::write(&p, orphan).unwrap();
+                    let qdir = util::fresh_dir("preq");
+                    let r: Result<(), String> = (|| {
+                        let (cas, stats) = real::open_recover::<K>(&dir, &mk(reopen_pre))?;
+                        let stats = stats.ok_or("no OrphanStats")?;
+                        match how {
+                            0 => stats.delete_orphans().map(|_| ()).map_err(|e| util::err_chain(&e))?,
+                            1 => stats.quarantine_orphans(&qdir).map(|_| ()).map_err(|e| util::err_chain(&e))?,
+                            _ => stats.delete_orphan(&cassadilia::BlobHash(crate::util::b3(orphan))).map(|_| ()).map_err(|e| util::err_chain(&e))?,
+                        }
+                        if p.exists() {
+                            return Err("the orphan is still there after clean-up".into());
+                        }
+                        real::put_chunks(&cas, "again".to_string(), &[orphan], true).map_err(|e| format!("put of the cleaned-up orphan's content failed: {e}"))?;
+                        match cas.get(&"again".to_string()) {
+                            Ok(Some(b)) if b.as_ref() == orphan => {}
+                            other => return Err(format!("get after the put returned {:?}", other.map(|o| o.map(|b| b.len())).map_err(|e| util::err_chain(&e)))),
+                        }
+                        cas.remove(&"again".to_string()).map_err(|e| util::err_chain(&e))?;
+                        Ok(())
+                    })();
+                    util::rm_rf(&qdir);
+                    if let Err(e) = r {
+                        out.push(("precreate-cleanup-then-put".into(), format!("{desc}: orphan planted alone in its leaf directory, clean-up call #{how} (0 delete_orphans, 1 quarantine_orphans, 2 delete_orphan), then the same content put again: {e}")));
+                        break;
+                    }
+                }
+            }
             util::rm_rf(&dir);
         }
     }
@@ -568,6 +605,57 @@ pub fn c11_drop_orders(res: &mut WorkerResult) -> Vec<(String, String, Value)> {
     out
 }
 
+/// The application spawns a child process (fork + exec) while the store is open; the child outlives the handle. Once the last
+/// owner object is dropped no live handle exists, so the next open must be granted although the child is still running
+/// (a descriptor of the store leaking into the child would keep the lock held there).
+pub fn c11_child_outlives_handle(res: &mut WorkerResult) -> Vec<(String, String, Value)> {
+    let mut out = Vec::new();
+    for async_mode in [false, true] {
+        for recover in [false, true] {
+            res.count("executions", 1);
+            res.count("transitions", 4);
+            let dir = util::fresh_dir("child");
+            let conf = Cfg { n: 10_000, async_mode }.config();
+            let case = json!({"engine": "open", "kind": "child-outlives-handle"});
+            let (cas, stats) = if recover {
+                match real::open_recover::<K>(&dir, &conf) {
+                    Ok((c, s)) => (c, s),
+                    Err(e) => {
+                        out.push(("setup-open-failed".into(), e, case));
+                        continue;
+                    }
+                }
+            } else {
+                match real::open_cas::<K>(&dir, &conf) {
+                    Ok(c) => (c, None),
+                    Err(e) => {
+                        out.push(("setup-open-failed".into(), e, case));
+                        continue;
+                    }
+                }
+            };
+            let _ = real::put_chunks(&cas, "a".to_string(), &[b"xx"], true);
+            let child = std::process::Command::new("sleep").arg("30").env_remove("LD_PRELOAD").stdin(std::process::Stdio::null()).stdout(std::process::Stdio::null()).stderr(std::process::Stdio::null()).spawn();
+            let Ok(mut child) = child else {
+                res.notes.push("child-outlives-handle: could not spawn `sleep`; case skipped".into());
+                util::rm_rf(&dir);
+                continue;
+            };
+            let _ = real::put_chunks(&cas, "b".to_string(), &[b"yyy"], true);
+            drop(stats);
+            drop(cas);
+            match Cas::<K>::open(&dir, conf.clone()) {
+                Ok(c) => drop(c),
+                Err(e) => out.push(("reopen-while-child-process-runs".into(), format!("[{} {}] the store was opened, a child process was spawned (fork+exec of `sleep`), every owner object was dropped; the next open failed while the child is still running: {}", if async_mode { "Async" } else { "Sync" }, if recover { "open_with_recover" } else { "open" }, util::err_chain(&e)), case)),
+            }
+            let _ = child.kill();
+            let _ = child.wait();
+            util::rm_rf(&dir);
+        }
+    }
+    out
+}
+
 /// Async mode: the handle is dropped while background syncs are still pending (delayed by the shim); the directory must be
 /// free at once - no live handle exists any more.
 pub fn c11_async_reopen(res: &mut WorkerResult) -> Vec<(String, String, Value)> {
@@ -714,8 +802,13 @@ pub fn run(tier: &str, slice: (u64, u64), _seed: u64, prop: &str) -> WorkerResul
                 push(&mut res, "C11", o, d, c);
             }
         }
+        if mine(&mut j) {
+            for (o, d, c) in c11_child_outlives_handle(&mut res) {
+                push(&mut res, "C11", o, d, c);
+            }
+        }
         if slice.0 == 0 {
-            res.completed.push(format!("C11: 2 racing opens (<= {} preemptions) and 3 racing opens (<= {}) from threads with every filesystem call as a scheduling point, on 3 kinds of store; a second process's open at every filesystem call of the owner's open (real flock across processes), then owner killed; all 6 drop orders of handle/clone/OrphanStats; Async handle dropped with background syncs still pending (delayed by the shim), then reopened at once", if tier == "quick" { 2 } else { 3 }, if tier == "quick" { 1 } else { 2 }));
+            res.completed.push(format!("C11: 2 racing opens (<= {} preemptions) and 3 racing opens (<= {}) from threads with every filesystem call as a scheduling point, on 3 kinds of store; a second process's open at every filesystem call of the owner's open (real flock across processes), then owner killed; all 6 drop orders of handle/clone/OrphanStats; Async handle dropped with background syncs still pending (delayed by the shim), then reopened at once; a child process spawned while the store is open and still running after the last owner object is dropped (Sync/Async x open/open_with_recover): reopen granted", if tier == "quick" { 2 } else { 3 }, if tier == "quick" { 1 } else { 2 }));
         }
     }
     if res.samples.is_empty() {
@@ -748,6 +841,11 @@ pub fn replay(case: &Value) -> Vec<Violation> {
         }
         "async-reopen" => {
             for (o, d, _) in c11_async_reopen(&mut res) {
+                out.push(Violation::new(&["C11"], &o, d));
+            }
+        }
+        "child-outlives-handle" => {
+            for (o, d, _) in c11_child_outlives_handle(&mut res) {
                 out.push(Violation::new(&["C11"], &o, d));
             }
         }
